@@ -12,9 +12,11 @@ def run(prop, tier, seed, here, repo, env, scratch):
         resid = json.load(open(os.path.join(here, "residuals.json")))
     except Exception:
         pass
-    if tier == "quick" and resid.get(prop):
+    allres = sorted({x for k, v in resid.items() if isinstance(v, list) for x in v if x.startswith("asmvc/")})
+    if tier == "quick" and allres:
+        # residual obligations are claimed for no property: do not spend the quick budget on them
         sk = os.path.join(scratch, "asm_skip.json")
-        json.dump([x for x in resid.get(prop, []) if x.startswith("asmvc/")], open(sk, "w"))
+        json.dump(allres, open(sk, "w"))
         cmd += ["--skip", sk]
     r = subprocess.run(cmd, env=env, capture_output=True, text=True)
     try:
